@@ -290,7 +290,7 @@ func (p *peer) barrier() (got []msg, closed bool) {
 		closed = true
 	}
 	for {
-		m, cl, to := p.recv(5 * time.Second)
+		m, cl, to := p.recv(30 * time.Second)
 		if cl {
 			return got, true
 		}
@@ -591,7 +591,7 @@ func runIntro(dir string, c *chain, count int) {
 			// anything else: the node must close the connection (nothing more is sent; wait for the close)
 			_ = p.send(id, bodies[id])
 			for {
-				m, cl, to := p.recv(3 * time.Second)
+				m, cl, to := p.recv(20 * time.Second)
 				if cl {
 					closed = true
 					break
